@@ -158,6 +158,7 @@ def run(ctx, rep):
             rep.add("B1", "wrapper:%s%s" % (pre, m), len(cs) == 1, "%s:%s" % (b.file, b.line), "trait method forwards to the context's %s%s exactly once" % (pre, m))
     b3(F, rep)
     b4(F, rep)
+    b5(F, rep)
     # ---- B2 ---------------------------------------------------------------------------------------
     for en in ("CodecCorrection", "CodecMisprediction"):
         a = F.adts.get("preflate_rs::statistical_codec::" + en)
@@ -283,6 +284,39 @@ def b4(F, rep):
                 ok_rb = len(init) == 1 and (rb.dominates(shl[0], gbb) or shl[0] == gbb) and gbb in rb.reachable_from(shl[0]) and bor[0] in rb.reachable_from(gbb)
             why = "accumulator steps %s" % [d2 for _, d2 in steps]
     rep.add("B4", "fixed-reader:shift-then-or", ok_rb, "%s:%s" % (rb.file, rb.line), why)
+
+
+def b5(F, rep):
+    """Values pass the context layer untouched: what encode_* receives is what it hands to the primitive writer, and what
+    the primitive reader returns is what decode_* returns (no clamp, mask, offset or cast that loses bits)."""
+    def rets(b):
+        out = []
+        for bb in sorted(b.normal_blocks()):
+            for s in b.stmts(bb):
+                if s.get("k") == "assign" and s["p"]["l"] == 0 and not s["p"]["p"]:
+                    out.append(flow.describe_rvalue(b, s["r"], names=False))
+            t = b.term(bb)
+            if t["k"] == "call" and t.get("dest") and t["dest"]["l"] == 0 and not t["dest"]["p"]:
+                out.append("call:" + strip_generics(callee_def(t)).split("::")[-1])
+        return sorted(out)
+    e = F.body(CC + "encode_correction")
+    w = _calls(e, lambda n, t: n.endswith("::write_exp_encoded"))
+    rep.add("B5", "encode_correction-passes-value", len(w) == 1 and flow.describe(e, w[0][2]["args"][0]) == "arg<u32>", "%s:%s" % (e.file, e.line),
+            "write_exp_encoded(%s, ..)" % (flow.describe(e, w[0][2]["args"][0]) if w else None))
+    d = F.body(CC + "decode_correction")
+    r = rets(d)
+    rep.add("B5", "decode_correction-returns-read-value", r == ["K0", "call:read_exp_value"] or
+            (len(r) == 2 and r[0] == "K0" and re.match(r"^(preflate_rs::)?cabac_codec::PredictionCabacContext::read_exp_value\(.*\)$", r[1]) is not None),
+            "%s:%s" % (d.file, d.line), "results: %s (0 for a default, otherwise exactly what read_exp_value returned)" % [x[:120] for x in r])
+    e = F.body(CC + "encode_value")
+    w = _calls(e, lambda n, t: n.endswith("::write_bypass"))
+    ok = len(w) == 1 and re.match(r"^(into\()?(cast\()?arg<u16>\)?\)?$", flow.describe(e, w[0][2]["args"][0])) is not None and flow.describe(e, w[0][2]["args"][1]) == "arg<u8>"
+    rep.add("B5", "encode_value-passes-value-and-width", ok, "%s:%s" % (e.file, e.line),
+            "write_bypass(%s, %s, ..)" % ((flow.describe(e, w[0][2]["args"][0]), flow.describe(e, w[0][2]["args"][1])) if w else (None, None)))
+    d = F.body(CC + "decode_value")
+    r = rets(d)
+    ok = len(r) == 1 and re.match(r"^((cast\()?(preflate_rs::)?cabac_codec::PredictionCabacContext::read_bypass\(arg<u8>, arg<&mut R>\)\)?|call:read_bypass)$", r[0]) is not None
+    rep.add("B5", "decode_value-returns-read-value", ok, "%s:%s" % (d.file, d.line), "results: %s" % [x[:120] for x in r])
 
 
 def _index_enum(U, b, op):
